@@ -334,6 +334,11 @@ func c19Builder(k *core.Case) {
 	if k.Index%5 == 2 {
 		// the container already holds the very payload that is about to be built (same builder, same arguments)
 		core.Try(func() { applyBuilder(core.NewRng(bseed), k.Index, &cont) })
+		if (k.Index/24)%2 == 0 && len(cont) > 0 {
+			// ... and the caller has since edited that payload in place (turned a Start into a Stop, changed a value)
+			scribbleObject(cont[len(cont)-1])
+			k.Count("built_payload_edited_before_the_same_builder_ran_again", 1)
+		}
 	}
 	before := bridge.ObservePayloads(cont)
 	k.Eval(1)
@@ -598,7 +603,7 @@ func c19(c *core.Ctx) {
 			k.Count("BuildDeletePayload_keeps_callers_slice(not judged)", 1)
 		}
 	})
-	req := []string{"reset_sessions", "reset_sub_container_sessions", "error_at_build_BuildEAP5GNAS", "error_at_build_BuildNotify5G_QOS_INFO", "error_at_encode_BuildNotification", "error_at_encode_BuildEAP5GNAS"}
+	req := []string{"built_payload_edited_before_the_same_builder_ran_again", "reset_sessions", "reset_sub_container_sessions", "error_at_build_BuildEAP5GNAS", "error_at_build_BuildNotify5G_QOS_INFO", "error_at_encode_BuildNotification", "error_at_encode_BuildEAP5GNAS"}
 	for _, b := range []string{"BuildNotification", "BuildCertificate", "BuildEncrypted", "BUildKeyExchange", "BuildIdentificationInitiator", "BuildIdentificationResponder", "BuildAuthentication", "BuildNonce",
 		"BuildConfiguration", "BuildTrafficSelector", "BuildSecurityAssociation", "BuildDeletePayload", "BuildEAP", "BuildEAPSuccess", "BuildEAPfailure", "BuildEapExpanded", "BuildEAP5GStart", "BuildEAP5GNAS",
 		"BuildNotify5G_QOS_INFO", "BuildNotifyNAS_IP4_ADDRESS", "BuildNotifyUP_IP4_ADDRESS", "BuildNotifyNAS_TCP_PORT"} {
